@@ -20,7 +20,9 @@ RULE = ("scenarios (all 16 combinations of SINGLE_WRITER / SINGLE_READER / READ_
         "rejected one, optionally with the deprecated 0x04 bit; requested capacity 2..8 (rounded 2/4/8); 1..3 writers x 1..3 readers "
         "(1 where the flag promises a single one); 1..4 messages per writer; reader indices started at 2^32-3 (or 0, or "
         "2^32-3-k*cap) so that the 32-bit index wraps; harness throttle on) x seeded random schedules (context-switch "
-        "density 20/50/80 %) run on the real code under the deterministic scheduler; every trace replayed on the "
+        "density 20/50/80 %; for the futex-sleeping reader modes two thirds of the schedules also interrupt would-block "
+        "futex waits with EINTR at 15/30/60 % and wake them spuriously at 0/20 %) run on the real code under the "
+        "deterministic scheduler; every trace replayed on the "
         "extracted model; plus a negative stream with the throttle off (precondition violated; only model/implementation "
         "agreement is checked unless the trace happens to satisfy the precondition); non-trivial = the trace contains a "
         "contended lock acquisition, a reader that found the ring empty (futex wait / spin) or a throttled writer; "
@@ -28,7 +30,8 @@ RULE = ("scenarios (all 16 combinations of SINGLE_WRITER / SINGLE_READER / READ_
 TRUSTED_BASE = [
     "modelled, not verified: sequentially consistent interleaving of atomic operations plus release/acquire views for "
     "the plain cells (slots, payloads, read_cursor) as stand-in for C11 (DRF-SC assumed, not proved); futex = atomic "
-    "compare-and-block / wake (lowest sleeping thread first) and pthread mutex = exclusive ownership with "
+    "compare-and-block / wake (lowest sleeping thread first), where a wait that would block may instead return -1/EINTR "
+    "or 0 without a wake-up (schedule choices, also steps of the model), and pthread mutex = exclusive ownership with "
     "acquire/release, as interposed by harness/vsched; real weak-memory reorderings cannot be exhibited on x86 under a "
     "serialised run",
     "memory orders of the 7 sites (tas, clear, cursor store in write_lock / write_single, cursor load in read_wait / "
@@ -44,19 +47,13 @@ ASSUMPTIONS = [
     "read-once readers all use read-once mode",
 ]
 EVIDENCE_NOTES = [
-    "rb_payload_visible is proved only in part (rb_payload_visible_partial): reader modes wait / single-wait / "
-    "busy-loop with locked or single writers; the read-once mode's visibility (read_cursor under read_mutex, slot "
-    "and payload reads of muggle_ring_buffer_read_once) is NOT proved - there the model's uncovered-read monitor is "
-    "evaluated on every accepted trace (model prints an F MODEL line, i.e. a divergence, if it fires) and explored "
-    "by model_search when the memory-order obligation breaks",
-    "the theorems carry the documented no-lapping precondition as the ghost monitor s_lapped = false (checked at "
-    "every slot store against every reader's next index); that the HARNESS throttle (tickets) implies it is not "
-    "proved: it is checked on every throttled trace by the model (F MODEL line if violated) and independently by "
-    "the Python monitor (harness fault)",
-    "rb_once_exactly_once: proved = takes in read-mutex order are a prefix of written and every returned result is "
-    "the take recorded for that reader at one position; not stated as a theorem: that a reader's positions are "
-    "strictly increasing and that every taken position is eventually returned (checked by the monitor: per-reader "
-    "unlock order vs results, total count)",
+    "all listed theorems are proved in full (no _partial left): rb_payload_visible covers every writer/reader mode "
+    "including read-once (read_cursor under read_mutex); rb_once_positions states that a reader's positions strictly "
+    "increase and that every taken position is returned or pending with exactly one reader; rb_throttle_no_lap "
+    "proves that the model of the harness throttle implies the no-lapping precondition (s_lapped never fires)",
+    "the model additionally evaluates its ghost monitors on every accepted trace (F MODEL line = divergence if the "
+    "precondition monitor fires under the throttle or a plain read is uncovered under SC orders), and the Python "
+    "monitor re-checks the throttle independently on the trace",
 ]
 
 SITES = [  # (params field, discovery scenario, op, cell)
@@ -178,6 +175,17 @@ def _mk(name, scen, sched):
     return V.Case(name, list(scen) + ["sched " + sched], {"scen": scen[0]})
 
 
+def _rand_sched(rng, scen, sticks=(20, 50, 80)):
+    """seeded random schedule; scenarios whose readers sleep in the futex (wait, single-wait, read-once) get, in
+    two cases out of three, interrupted futex waits (muggle_sync_wait returns -1/EINTR instead of blocking) and
+    spurious wake-ups (returns 0 without a wake): the reader must loop and never return without its message"""
+    seed, stick = rng.below(1 << 30), rng.choice(list(sticks))
+    mode = py_mode(int(scen[0].split()[1]))
+    if mode is not None and mode[1] in (0, 1, 3) and rng.chance(2, 3):
+        return "rand %d %d 0 0 %d %d" % (seed, stick, rng.choice([15, 30, 60]), rng.choice([0, 0, 20]))
+    return "rand %d %d 0 0" % (seed, stick)
+
+
 def corpus_cases(ctx):
     cs = [V.Case("corpus-modes", ["modes"])]
     # every accepted flag combination once with a fixed schedule seed, and the rejected ones
@@ -188,6 +196,12 @@ def corpus_cases(ctx):
     cs.append(_mk("corpus-once-cap2", ["rb 16 2 1 0", "w 3 3", "r 2:0 3:7 1:9"], "rand 78 20 0 0"))
     cs.append(_mk("corpus-list", ["rb 0 4 1 1", "w 2 2", "r 4:4294967293"],
                   "list - 0 0 1 1 2 2 0 0 1 1 2 2 0 1 2 0 1 2 2 2 1 1 0 0"))
+    # interrupted / spuriously woken futex waits: the waiting reader must loop, never return without its message
+    cs.append(_mk("corpus-eintr-wait", ["rb 0 4 1 1", "w 2 2", "r 4:4294967293 4:4294967293"], "rand 91 30 0 0 60 20"))
+    cs.append(_mk("corpus-eintr-singlewait", ["rb 2 2 1 1", "w 3", "r 3:4294967293"], "rand 92 30 0 0 60 0"))
+    cs.append(_mk("corpus-eintr-once", ["rb 16 2 1 0", "w 2 2", "r 2:0 2:0"], "rand 93 30 0 0 60 20"))
+    cs.append(_mk("corpus-eintr-list", ["rb 0 4 1 1", "w 2", "r 2:4294967293"],
+                  "list f0,w1,f2, 1 1 1 1 1 1 1 1 1 1 1 1 0 0 0 0 0 0 0 0 1 1 1 1 1 1 1 1"))
     corp = os.path.join(V.VERIF, "corpus", ID)
     if os.path.isdir(corp):
         for f in sorted(os.listdir(corp)):
@@ -202,10 +216,10 @@ def generate(rng, tier):
     nneg = 1200 if tier == "quick" else 15000
     for i in range(npos):
         scen = _scenario(rng, 1)
-        cases.append(_mk("pos-%d" % i, scen, "rand %d %d 0 0" % (rng.below(1 << 30), rng.choice([20, 50, 80]))))
+        cases.append(_mk("pos-%d" % i, scen, _rand_sched(rng, scen)))
     for i in range(nneg):
         scen = _scenario(rng, 0)
-        cases.append(_mk("neg-%d" % i, scen, "rand %d %d 0 0" % (rng.below(1 << 30), rng.choice([20, 50, 80]))))
+        cases.append(_mk("neg-%d" % i, scen, _rand_sched(rng, scen)))
     return cases
 
 
@@ -214,7 +228,7 @@ def search(rng, diverging, tier):
     for i in range(4000):
         flag = rng.choice([0, 0, 0, 8, 16, 16, 1, 9, 17, 2, 10])
         scen = _scenario(rng, 1, flag)
-        out.append(_mk("search-%d" % i, scen, "rand %d %d 0 0" % (rng.below(1 << 30), rng.choice([10, 30, 50, 80]))))
+        out.append(_mk("search-%d" % i, scen, _rand_sched(rng, scen, (10, 30, 50, 80))))
     return out
 
 
@@ -393,8 +407,12 @@ def _mon_trace(lines, cap, mode, throttle, pre, wc, rq):
                 last_got[t] = mid
                 if not once and precond and bad is None:
                     pos = pre + k
-                    if pos >= len(log):
+                    if mid < 0:
+                        bad = "reader %d read #%d returned NULL (or a pointer that is no message) instead of blocking until the %d-th message exists" % (t, k, pos)
+                    elif pos >= len(log):
                         bad = "reader %d returned from read #%d (message %d) before the %d-th message was published" % (t, k, mid, pos)
+                    elif mid < 0:
+                        bad = "reader %d read #%d returned NULL (or a pointer that is no message) instead of blocking until the %d-th message exists" % (t, k, pos)
                     elif log[pos] != mid:
                         bad = "reader %d read #%d returned message %d, the %d-th published message is %d" % (t, k, mid, pos, log[pos])
             elif w[2] == "pay":
@@ -464,6 +482,10 @@ def tally(dist, case, lines):
     for ln in lines:
         if " fwait " in ln and ln.endswith(" 1"):
             dist["futex_sleeps"] = dist.get("futex_sleeps", 0) + 1
+        elif " fwait " in ln and ln.endswith(" 2"):
+            dist["futex_interrupted"] = dist.get("futex_interrupted", 0) + 1
+        elif " fwait " in ln and ln.endswith(" 3"):
+            dist["futex_spurious_wake"] = dist.get("futex_spurious_wake", 0) + 1
         elif ln.startswith("DEADLOCK") or ln.startswith("LIVELOCK"):
             dist["neg-" + ln.split()[0].lower()] = dist.get("neg-" + ln.split()[0].lower(), 0) + 1
     if rq and any(i + q >= TWO32 for q, i in rq if q > 0):
@@ -476,10 +498,10 @@ MANIFEST = {
                    "mutex; wait / single-wait / busy-loop / read-once readers) with an arbitrary number of writers and "
                    "readers, any power-of-two capacity and every schedule: under the documented no-lapping precondition "
                    "read(i) returns the i-th published message and only after it exists, all readers agree, the 32-bit "
-                   "index wrap is harmless, read-once takes in read-mutex order are a prefix of the publication order, and "
-                   "(proved for the wait / single-wait / busy-loop modes; read-once mode only monitored in the model) "
-                   "every slot / payload read is covered by the reader's view (memory orders re-extracted from the code "
-                   "each run).  Tie: the real code runs under a deterministic scheduler (hooked atomics, emulated "
+                   "index wrap is harmless, read-once takes in read-mutex order are a prefix of the publication order with "
+                   "strictly increasing per-reader positions and every position owned by one reader, every slot / payload / "
+                   "read_cursor read is covered by the reader's view in all modes (memory orders re-extracted from the code "
+                   "each run), and the harness throttle implies the precondition.  Tie: the real code runs under a deterministic scheduler (hooked atomics, emulated "
                    "futex/mutex) and every trace is replayed on the extracted model; an independent monitor checks "
                    "publication order, per-reader sequences, read-once prefix and payloads on the traces."),
     "design_ref": "DESIGN.md sections 4.2, 4.3, 6/C02, Appendix A.6, B",
